@@ -1,4 +1,5 @@
 import LhasaV.Model.Extract
+import LhasaV.Lemmas.GlobFs
 /-!
 # C06 — extraction reproduces the archived tree: contents, names, times, modes, links
 -/
@@ -21,5 +22,29 @@ theorem relocate_prefix (h : Header.Hdr) (o : Opts) (d : Bytes) (hw : o.extractP
   simp only [hw]
   exact ⟨(if o.usePath then stripSlashes (h.path.getD []) else []) ++ stripSlashes (h.filename.getD []),
     by simp [List.append_assoc]⟩
+
+/-- **Wildcards.** `match_glob` (model of the C recursion) decides exactly the wildcard semantics —
+`*` any run of bytes, `?` exactly one byte, every other byte itself (case-sensitive) — for EVERY
+pattern and EVERY string. -/
+theorem glob_iff (g s : List UInt8) : Glob.matchGlob g s = Glob.GlobSpec g s := GlobFs.glob_iff g s
+
+/-- the members handed to extraction/print/list are exactly those whose stored path matches some argument -/
+theorem select_spec (fs : List (List UInt8)) (hdrs : List Header.Hdr) :
+    Glob.select fs hdrs = hdrs.filter (fun h => fs.isEmpty || fs.any (fun f => Glob.GlobSpec f (Glob.fullName h))) :=
+  GlobFs.select_spec fs hdrs
+
+/-- a pattern without wildcards selects exactly the member with that stored path -/
+theorem glob_literal (g s : List UInt8) (hg : ∀ b ∈ g, b ≠ Glob.star ∧ b ≠ Glob.quest) :
+    Glob.matchGlob g s = true ↔ s = g := GlobFs.glob_literal g s hg
+
+/-- any number of trailing stars is one trailing star -/
+theorem glob_trailing_stars (g s : List UInt8) (k : Nat) :
+    Glob.matchGlob (g ++ List.replicate (k + 1) Glob.star) s = Glob.matchGlob (g ++ [Glob.star]) s :=
+  GlobFs.glob_trailing_stars g s k
+
+/-- with `i` the constructed path is the single component `filename` -/
+theorem flatten_single_component (h : Header.Hdr) (o : Opts) (hf : Header.FnOk h)
+    (hi : o.usePath = false) (hw : o.extractPath = none) :
+    Fs.splitPath (fileFullPath h o) = [h.filename.getD []] := GlobFs.full_path_flat_single h o hf hi hw
 
 end LhasaV.Props.C06
